@@ -81,3 +81,8 @@ add('C12', 'property-based testing: get_value() of every name after every call a
     'and compared with a stand-alone monitor of that sub-formula (pastified if the host was) or with the data supplied.',
     'Trusted: the stand-alone run of the same rtamt monitor kind (whose values are C01-C05 business); dense input batches are checked for shape only.',
     'DESIGN.md section 5 C12')
+add('C10', 'property-based testing over generated call histories (update/reset sequences as one shrinkable value) with a freshly constructed shadow monitor as the model (Hypothesis)',
+    'Histories of up to 30 update/reset operations on discrete, pastified and dense online monitors with and without sub-specifications; after every update the output '
+    'must equal that of a monitor constructed fresh at the last reset, and the sampling-violation counter must agree after every operation; reset() first is included.',
+    'Trusted: a freshly constructed monitor as the reference; dense input restarts at time 0 after a reset.',
+    'DESIGN.md section 5 C10')
